@@ -3,10 +3,12 @@
 //! `h_poolmt probe`                 prints the trait-impl table measured from rustc (one JSON object per line)
 //! `h_poolmt demo <out.ndjson>`     runs, for every handle type whose measured impls allow it, a real two-thread
 //!                                  program that reaches one `Cell` payload from two threads; records what happened
+//! `h_poolmt dtor-race <out.ndjson> <secs>`   C04: destructor panics on one thread, other threads keep using the pool
 //! `h_poolmt mt <pool> <threads> <ops> <out.ndjson>`   free-running threads against a real pool, linearization log
 mod demo;
 mod mt;
 mod probe;
+mod race;
 
 fn main() {
     let args: Vec<String> = std::env::args().collect();
@@ -15,6 +17,7 @@ fn main() {
         Some("demo") => demo::main(&args[2]),
         Some("mt") => mt::main(&args[2..]),
         Some("mt-burst") => mt::burst(&args[2..]),
+        Some("dtor-race") => race::main(&args[2..]),
         _ => {
             eprintln!("usage: h_poolmt probe | demo <out> | mt <pool> <threads> <ops> <slabcap> <keep|poolgone> <out>");
             std::process::exit(2);
